@@ -70,8 +70,14 @@ func (d device) jsIntKey() []byte { return derive(d.nwkKey[:], 6, rev(d.devEUI[:
 func (d device) jsEncKey() []byte { return derive(d.nwkKey[:], 5, rev(d.devEUI[:])) }
 
 func (d device) joinRequestFrame(devNonce uint16) []byte {
+	return d.joinRequestFrameUnder(devNonce, d.nwkKey[:])
+}
+
+// joinRequestFrameUnder: the same frame with the MIC computed under another key (a forged or
+// mis-provisioned request: a join server must answer MICFailed unless the key is the NwkKey)
+func (d device) joinRequestFrameUnder(devNonce uint16, key []byte) []byte {
 	msg := cat([]byte{0x00}, rev(d.joinEUI[:]), rev(d.devEUI[:]), le16(devNonce))
-	return cat(msg, mic4(d.nwkKey[:], msg))
+	return cat(msg, mic4(key, msg))
 }
 
 func (d device) rejoin02Frame(ty byte, netID [3]byte, rjCount uint16, sNwkSIntKey []byte) []byte {
